@@ -8,7 +8,7 @@ import Mathlib.Data.String.Basic
 namespace Matryoshka
 
 theorem Proposal.lt_asymm {a b : Proposal} (h : a.lt b) : ¬ b.lt a := by
-  unfold Proposal.lt at *
+  unfold Proposal.lt Extracted.Proposal.lt at *
   rcases h with h | ⟨h1, h2⟩
   · rintro (h' | ⟨h1', _⟩) <;> omega
   · rintro (h' | ⟨_, h2'⟩)
@@ -17,7 +17,7 @@ theorem Proposal.lt_asymm {a b : Proposal} (h : a.lt b) : ¬ b.lt a := by
 
 /-- Negative transitivity: `≥` (in the sense `¬ <`) is transitive. -/
 theorem Proposal.ge_trans {a b c : Proposal} (hab : ¬ a.lt b) (hbc : ¬ b.lt c) : ¬ a.lt c := by
-  unfold Proposal.lt at *
+  unfold Proposal.lt Extracted.Proposal.lt at *
   simp only [not_or, not_and, Int.not_lt] at hab hbc
   rintro (h | ⟨h1, h2⟩)
   · have h1 := hab.1; have h2 := hbc.1; omega
@@ -27,8 +27,8 @@ theorem Proposal.ge_trans {a b c : Proposal} (hab : ¬ a.lt b) (hbc : ¬ b.lt c)
     exact absurd (lt_of_lt_of_le h2 (not_lt.mp hsbc)) (not_lt.mpr (not_lt.mp hsab))
 
 theorem Proposal.sameKey_of_not_lt {a b : Proposal} (hab : ¬ a.lt b) (hba : ¬ b.lt a) : a.sameKey b := by
-  unfold Proposal.lt at *
-  unfold Proposal.sameKey
+  unfold Proposal.lt Extracted.Proposal.lt at *
+  unfold Proposal.sameKey Extracted.Proposal.eq
   simp only [not_or, not_and, Int.not_lt] at hab hba
   have hp : a.prio = b.prio := by have := hab.1; have := hba.1; omega
   refine ⟨hp, ?_⟩
